@@ -23,6 +23,7 @@ import copy
 from hsverif.core import Result
 
 INIT_T = -1
+_ANY = object()
 
 
 def drain_policy(policy, limit: int):
@@ -338,13 +339,22 @@ class Mon:
             rec["fill"] = True
             if ov:
                 rec["fill_overlap"] = True
-                self.facts[k].append((rec["end"], "miss-fill-overlaps-write", {"get": rec["id"], "writes": [w["op"] for w in ov]}))
+                self.facts[k].append((rec["end"], "miss-fill-overlaps-write", {"get": rec["id"], "installed": v, "writes": [w["op"] for w in ov]}))
         elif rec["kind"] == "get" and rec["tier_hit"] > 0:
             p = self._promos()
             if p is not None and rec["promos"] is not None and p > rec["promos"]:
                 rec["promoted"] = True
+                # an invalidation of the key while the lower-tier read was in flight counts like a write:
+                # the promotion re-installs what the invalidation removed
+                inv = [
+                    h["id"]
+                    for h in self.hist
+                    if h["kind"] in ("inv", "invall") and (h["key"] == k or h["kind"] == "invall") and rec["start"] <= h["start"] <= rec["end"]
+                ]
+                if inv and not ov:
+                    self.facts[k].append((rec["end"], "promotion-overlaps-write", {"get": rec["id"], "installed": v, "invalidations": inv}))
                 if ov:
-                    self.facts[k].append((rec["end"], "promotion-overlaps-write", {"get": rec["id"], "writes": [w["op"] for w in ov]}))
+                    self.facts[k].append((rec["end"], "promotion-overlaps-write", {"get": rec["id"], "installed": v, "writes": [w["op"] for w in ov]}))
 
     # ------------------------------------------------------------ evaluation
     def _superseders(self, key, x, before):
@@ -355,12 +365,23 @@ class Mon:
             if w["strong"] and w is not x and w["end"] is not None and x["end"] is not None and x["end"] < w["start"] and w["end"] < before
         ]
 
-    def _attribute(self, key, since, until, issued=None):
+    def _attribute(self, key, since, until, issued=None, value=_ANY):
         issued = until if issued is None else issued
         cands = []
         for f in self.facts[key]:
             if not (since <= f[0] <= until):
                 continue
+            if isinstance(f[2], dict) and "installed" in f[2]:
+                # "a fill/promotion put value v into the cache": refuted if the stale value seen is a different one,
+                # or if a read in between returned something else
+                inst = f[2]["installed"]
+                if value is not _ANY and value != inst:
+                    continue
+                if any(
+                    r["kind"] == "get" and r["key"] == key and r["end"] is not None and r["start"] > f[0] and r["end"] < issued and r["res"] != inst
+                    for r in self.hist
+                ):
+                    continue
             win = f[2].get("window_op") if isinstance(f[2], dict) else None
             if win is not None:
                 # only explains observations issued while that operation was still in flight
@@ -404,7 +425,7 @@ class Mon:
             return
         x, sup = best
         wstar = max(sup, key=lambda w: w["start"])
-        shape, info = self._attribute(k, wstar["start"], rec["end"], issued=rec["start"])
+        shape, info = self._attribute(k, wstar["start"], rec["end"], issued=rec["start"], value=r)
         if path:
             shape = path
         self.res.count("stale_reads")
@@ -447,7 +468,7 @@ class Mon:
                 sup = [w for w in self.writes[k] if w["end"] is not None and xs[-1]["end"] is not None and xs[-1]["end"] < w["start"]]
                 if sup:
                     since = max(w["start"] for w in sup)
-            shape, info = self._attribute(k, since, t)
+            shape, info = self._attribute(k, since, t, value=have)
             if shape.startswith("after-"):
                 self.res.count("final_losses_downstream_of_reported_discard")
                 continue
@@ -468,8 +489,8 @@ class Mon:
             d["lost"] = True
             wr = [w for w in self.writes[d["key"]] if w["val"] == d["want"]]
             since = wr[-1]["start"] if wr else 0
-            earlier = [f for f in self.facts[d["key"]] if since <= f[0] <= d["t"]]
-            if earlier:
+            earlier, _ = self._attribute(d["key"], since, d["t"])
+            if earlier != "unattributed":
                 # the cached copy had already been replaced by an older value (e.g. by a racing miss-fill):
                 # that mechanism is reported through the read / final-state oracles
                 self.res.count("dirty_drops_downstream_of_earlier_fact")
